@@ -23,7 +23,9 @@ from __future__ import annotations
 
 import math
 
+from .aggsym_cancel import run_cancel, run_cancel_cs
 from .aggsym_driver import SETTINGS, run_replay, run_sc
+from .aggsym_many import run_many, run_many_cs
 from .aggsym_trace import run_cs
 from .core import Ctx, MachineryError
 
@@ -35,8 +37,14 @@ RULES = {
            "the replay); every case with a fresh object on a fresh tensor AND, at one scale, with ONE long-lived object per configuration on storage "
            "that is refilled in place (contiguous buffer, strided view, new view object per call) after it held another matrix; the family includes "
            "badly conditioned instances of unambiguous rank (condition number 37..63); non-trivial = "
-           "Q is not the identity and the instance has rank >= 2 and a negative Gramian entry (projection-based weights differ from the mean)",
+           "Q is not the identity and the instance has rank >= 2 and a negative Gramian entry (projection-based weights differ from the mean); "
+           "MANY-ROW family (spec AggSymMany): 27..40 rows = common offset 2^17 O (float32, float64) / 2^39 O (float64) + integer spread, column words of "
+           "adjacent swaps, a negated column, a Hadamard/2 block, zero columns in three layouts: Krum's selection is decided by the model from the exact "
+           "distances of the spread (the offset cancels in every difference) and compared exactly, Krum / TrimmedMean / Mean by value",
     "C09": "one case = (instance, c1, c2, a, b, scale 2^e, aggregator) with c entries in {1, 2^10, 2^20} (6 orders of magnitude), a, b in 1..3; "
+           "the family contains TALL instances with independent columns (dependent rows), conflicting rows and one common row norm, on which the model "
+           "computes ConFIG exactly, A(diag(c) J) = (sum_i c_i d_i) y / <y,y> with d_i of both signs: the three values are compared with the model's and "
+           "the triples on which the total length changes sign are counted (must be > 0); "
            "non-trivial = c1 != c2, one of them non-uniform, conflicting rows; UPGrad additionally over reg_eps in 1e-2..1e-12 (fresh object per rung, "
            "walked down and then up within one process) and norm_eps in {1e-4, 1e-2, 1e-6, 0 (int), 0.0}, "
            "including scales at which the singular values of diag(c) J lie on both sides of norm_eps (largest above, a non-zero one below; decided exactly)",
@@ -45,9 +53,20 @@ RULES = {
            "float32); ALL m! permutations of "
            "every instance (m <= 4 quick, m <= 5 thorough), with a fresh object per call AND (aggregators without per-row parameters) with ONE object called "
            "consecutively on temporaries J[pi], also in the model's wide presentation (columns repeated 4^5 times, scaled 2^-5: 3 x 4096); "
-           "non-trivial = non-identity permutation of an instance with different rows and a non-constant parameter vector",
+           "non-trivial = non-identity permutation of an instance with different rows and a non-constant parameter vector; "
+           "MANY-ROW family (spec AggSymMany): 27..40 rows = common offset + integer spread under words of cyclic shift / reversal / perfect shuffle "
+           "(selection of Krum decided by the model, compared exactly; values of Krum, TrimmedMean, Mean); CANCELLING-COLUMN family (spec AggSymCancel): "
+           "GradDrop with and without leak under a fixed seed on J = 2^x K + S (float32 x = 26, float64 x = 55, 60), ALL m! row orders, on the columns the "
+           "model classifies as absorbing (purity the same float in every order on the definition sum / sum of absolute values)",
 }
 ASSUMPTIONS = [
+    "ConFIG on dependent rows: only where the model computes it exactly (independent columns, non-zero rows of one squared norm, matrix presented "
+    "with the columns of the instance); allowance 64*eps*cond*ref with cond = 4m^2 * m * sqrt(trG) * |w|_1 * trG^n / det(J^T J) (least-squares "
+    "sensitivity kappa(U)^2 (1 + |U||w|/|U^T w|), integer determinant); J^T w = 0 (exact direction zero) is skipped and counted, never reported",
+    "many-row family: every entry (2^x O_c + S_rc)/den and every difference of two entries is exact in the dtype; Krum is claimed only where the "
+    "score brackets (1/256) plus the float32 rounding margin g*2^-23 (g = m - f - 2 + n + 3) separate the selection (else counted as skipped)",
+    "cancelling-column family: a column is claimed only if it is absorbing (sum |small| < ulp(2^x)/2 in the dtype) or has no big entry; allowance "
+    "2(4+m)*eps*sum_r|J_rc| per coordinate and side",
     "float64 (float32 only in the near-max family of C10); matrices are integers (or half-integers) times 2^e, so J J^T, J Q and diag(c) J are exact in floats and Gram(JQ) = Gram(J) bit for bit",
     "near-max family (C10): only aggregators with FIXED weights w, sum |w_i| <= 1 (model flag NearMaxFlags): every partial sum of w @ J is a subset sum, "
     "bounded by max |J|; Sum, TrimmedMean (sum before dividing) and everything that forms J J^T or distances overflow order-dependently on such matrices "
@@ -139,8 +158,19 @@ def _run(ctx: Ctx, replay: str | None, pid: str) -> None:
             ctx.extra[k] = ctx.counters.get(k, 0)
             if not ctx.counters.get(k):
                 raise MachineryError(f"vacuous UPGrad ladder: {k} = 0")
+        for k in ("config_exact_triples:tall", "config_exact_triples_on_which_the_total_length_changes_sign"):
+            ctx.extra[k] = ctx.counters.get(k, 0)
+            if not ctx.counters.get(k):
+                raise MachineryError(f"vacuous tall family for ConFIG: {k} = 0")
     n_ep = SETTINGS[pid][ctx.tier][4]
     ctx.extra["trace_summary"] = run_cs(ctx, pid, n_ep)
+    # further instance families with their own specifications (model check, replay, traces)
+    if pid in ("C08", "C10"):
+        run_many(ctx, pid)                                    # spec/AggSymMany.tla: 27..40 rows = common offset + spread
+        ctx.extra["trace_summary_many_rows"] = run_many_cs(ctx, pid, 30 if ctx.tier == "quick" else 120)
+    if pid == "C10":
+        run_cancel(ctx, pid)                                  # spec/AggSymCancel.tla: GradDrop, large cancelling entries
+        ctx.extra["trace_summary_cancelling_columns"] = run_cancel_cs(ctx, pid, 60 if ctx.tier == "quick" else 240)
 
 
 def run_c08(ctx, replay):
